@@ -547,6 +547,17 @@ func RandShuffle(n int, swap func(i, j int)) {
 // Pool replaces sync.Pool in rewritten code. It hands back the most recently returned object
 // first (a stack): the answer of a real pool that maximises reuse, which is the one that exposes
 // objects still referenced by whoever returned them. Deterministic, so executions replay.
+// Map stands in for sync.Map: the native one (every method is one atomic step of the calling thread,
+// with a switch point before it so that two threads' accesses can be ordered either way).
+type Map struct{ m sync.Map }
+
+func (m *Map) Load(key any) (any, bool)               { Yield(); return m.m.Load(key) }
+func (m *Map) Store(key, value any)                   { Yield(); m.m.Store(key, value) }
+func (m *Map) LoadOrStore(key, value any) (any, bool) { Yield(); return m.m.LoadOrStore(key, value) }
+func (m *Map) LoadAndDelete(key any) (any, bool)      { Yield(); return m.m.LoadAndDelete(key) }
+func (m *Map) Delete(key any)                         { Yield(); m.m.Delete(key) }
+func (m *Map) Range(f func(key, value any) bool)      { Yield(); m.m.Range(f) }
+
 type Pool struct {
 	New   func() interface{}
 	mu    sync.Mutex
